@@ -190,7 +190,7 @@ class ParamResolver:
             exponent = self.value_of(value.args[1], recursive)
             # Casts because numpy can handle expressions (by delegating to __pow__), but does
             # not have signature that will support this.
-            if isinstance(base, numbers.Number):
+            if isinstance(base, numbers.Number) and isinstance(exponent, numbers.Number):
                 return np.float_power(cast(complex, base), cast(complex, exponent))
             return np.power(cast(complex, base), cast(complex, exponent))
 
